@@ -1013,6 +1013,51 @@ fn nesting_docs() -> Vec<Vec<u8>> {
         t.push(b']');
         out.push(t);
     }
+    // Wide families: many *sibling* containers at small real depth. A validator whose depth counter
+    // is not restored on every exit path (empty container, early return) drifts with the number of
+    // siblings and starts rejecting shallow documents; nothing in the deep families shows that.
+    for n in [3usize, 126, 127, 128, 129, 130, 200, 1000] {
+        for el in [&b"[]"[..], b"{}", b"[ ]", b"{\n}", b"[1]", b"{\"a\":1}", b"[[]]", b"{\"a\":{}}", b"\"\"", b"0"] {
+            for tail in [&b""[..], b",[1]", b",{\"a\":[{}]}", b",[[[1]]]"] {
+                // array of n siblings
+                let mut t = vec![b'['];
+                for i in 0..n {
+                    if i > 0 {
+                        t.push(b',');
+                    }
+                    t.extend_from_slice(el);
+                }
+                t.extend_from_slice(tail);
+                t.push(b']');
+                out.push(t);
+                // object with n members
+                let mut t = vec![b'{'];
+                for i in 0..n {
+                    if i > 0 {
+                        t.push(b',');
+                    }
+                    t.extend_from_slice(format!("\"k{i}\":").as_bytes());
+                    t.extend_from_slice(el);
+                }
+                if !tail.is_empty() {
+                    t.extend_from_slice(b",\"z\":");
+                    t.extend_from_slice(&tail[1..]);
+                }
+                t.push(b'}');
+                out.push(t);
+            }
+        }
+        // alternating empty array / object siblings, then a nested value
+        let mut t = vec![b'['];
+        for i in 0..n {
+            if i > 0 {
+                t.push(b',');
+            }
+            t.extend_from_slice(if i % 2 == 0 { b"[]" } else { b"{}" });
+        }
+        t.extend_from_slice(b",[{\"a\":[]}]]");
+        out.push(t);
+    }
     out
 }
 
@@ -1110,7 +1155,7 @@ fn explore(ctx: &Ctx, rep: &mut Report) {
         }
     });
     rep.merge(r);
-    rep.mark_exhaustive("nesting", "arrays / objects / alternating containers of depth {1,2,64,100,126..130,200,1000} around 5 innermost values, complete and at every truncation; newline-separated opens; 3 sibling towers of depth 64/127/128");
+    rep.mark_exhaustive("nesting", "arrays / objects / alternating containers of depth {1,2,64,100,126..130,200,1000} around 5 innermost values, complete and at every truncation; newline-separated opens; 3 sibling towers of depth 64/127/128; wide families: {3,126..130,200,1000} sibling containers (empty, whitespace-only, non-empty, scalars) in an array / object, alone and followed by a nested value");
     for t in [&b"\"\\ud800\\ud800\""[..], b"[1,]", b"{\"a\":1}\r\n x"] {
         let a = analyse(t);
         rep.sample(|| json!({"input": show(t), "reference": {"valid": a.valid, "longest_viable_prefix": a.d}, "validator": format!("{:?}", validate(t).map_err(|e| e.to_string()))}));
